@@ -108,6 +108,14 @@ type WritersSpec struct {
 	Line        int
 }
 
+// DefersSpec: structural obligation — function Func defers a call to Callee in its entry block
+// (used for "a panic in peer-message handling is confined to the connection").
+type DefersSpec struct {
+	Func, Callee string
+	Props        []string
+	PkgPath      string
+}
+
 type GhostVar struct {
 	Name string
 	Sort string
@@ -119,6 +127,7 @@ type Contracts struct {
 	Axioms  []*Axiom
 	Lemmas  []*Lemma
 	Writers []*WritersSpec
+	Defers  []*DefersSpec
 	Ghosts  map[string]*GhostVar
 	Files   []string
 	PurePkgs map[string]bool // packages whose functions are assumed to assign nothing (logging, formatting)
@@ -324,6 +333,7 @@ func (cs *Contracts) LoadContractFile(file, pkgPath string) error {
 	var cur *FuncContract
 	var curLemma *Lemma
 	var curWriters *WritersSpec
+	var curDefers *DefersSpec
 	ln := 0
 	// join continuation lines: a line whose //@ body starts with "\" continues the previous
 	type rawLine struct {
@@ -378,9 +388,12 @@ func (cs *Contracts) LoadContractFile(file, pkgPath string) error {
 			}
 			cs.Funcs[key] = cur
 			curLemma, curWriters = nil, nil
+			curDefers = nil
 		case "props":
 			ps := strings.FieldsFunc(rest, func(r rune) bool { return r == ',' || r == ' ' })
 			switch {
+			case curDefers != nil:
+				curDefers.Props = ps
 			case curLemma != nil:
 				curLemma.Props = ps
 			case curWriters != nil:
@@ -555,6 +568,7 @@ func (cs *Contracts) LoadContractFile(file, pkgPath string) error {
 			}
 			cs.Specs[sf.Name] = sf
 			cur, curLemma, curWriters = nil, nil, nil
+			curDefers = nil
 		case "axiom", "lemma":
 			i := strings.Index(rest, ":")
 			if i < 0 {
@@ -567,10 +581,12 @@ func (cs *Contracts) LoadContractFile(file, pkgPath string) error {
 			if kw == "axiom" {
 				cs.Axioms = append(cs.Axioms, &Axiom{Name: strings.TrimSpace(rest[:i]), C: c, PkgPath: pkgPath})
 				cur, curLemma, curWriters = nil, nil, nil
+			curDefers = nil
 			} else {
 				curLemma = &Lemma{Name: strings.TrimSpace(rest[:i]), C: c, PkgPath: pkgPath}
 				cs.Lemmas = append(cs.Lemmas, curLemma)
 				cur, curWriters = nil, nil
+				curDefers = nil
 			}
 		case "ghost":
 			fs := strings.Fields(rest)
@@ -581,9 +597,21 @@ func (cs *Contracts) LoadContractFile(file, pkgPath string) error {
 		case "pureprefix":
 			cs.PurePrefixes = append(cs.PurePrefixes, strings.TrimSpace(rest))
 			cur, curLemma, curWriters = nil, nil, nil
+			curDefers = nil
 		case "purepkg":
 			cs.PurePkgs[strings.TrimSpace(rest)] = true
 			cur, curLemma, curWriters = nil, nil, nil
+			curDefers = nil
+		case "defers":
+			// defers FUNC: CALLEE
+			i := strings.Index(rest, ":")
+			if i < 0 {
+				return fmt.Errorf("%s:%d: defers FUNC: CALLEE", file, rl.line)
+			}
+			d := &DefersSpec{Func: normalizeKey(strings.TrimSpace(rest[:i]), pkgPath), Callee: strings.TrimSpace(rest[i+1:]), PkgPath: pkgPath}
+			cs.Defers = append(cs.Defers, d)
+			cur, curLemma, curWriters = nil, nil, nil
+			curDefers = d
 		case "writers":
 			// writers Type.field: f1, f2
 			i := strings.Index(rest, ":")
@@ -595,6 +623,7 @@ func (cs *Contracts) LoadContractFile(file, pkgPath string) error {
 			cs.Writers = append(cs.Writers, w)
 			curWriters = w
 			cur, curLemma = nil, nil
+			curDefers = nil
 		default:
 			return fmt.Errorf("%s:%d: unknown contract keyword %q", file, rl.line, kw)
 		}
